@@ -159,6 +159,9 @@ def gen_history(rng):
             ops.append((rng.choice(["range", "range", "range!"]), i, r0, r0 + rng.choice([-1, 1]) * rng.choice([1.0, 100.0, 360.0, rng.uniform(0.5, 5000)])))
         elif c < 0.5:
             ops.append(("clamp", i, rng.random() < 0.5))
+        elif c < 0.66 and nobj > 1:
+            # one scale is given the very list another scale's getter handed out (`b.domain(a.domain())`): values are taken, the list is not adopted
+            ops.append(("domain-of", i, rng.randrange(nobj)))
         elif c < 0.75:
             ops.append(("nice", i, rng.choice([None, 10, 5, 2, 20, 7])))
         else:
@@ -188,6 +191,10 @@ def run_history(ops):
             s.domain(arg(op[1], "domain", op[2], op[3], op[0].endswith("!"))); enc.append("domain:%d:%s:%s" % (op[1], fr(op[2]), fr(op[3])))
         elif op[0] in ("range", "range!"):
             s.range(arg(op[1], "range", op[2], op[3], op[0].endswith("!"))); enc.append("range:%d:%s:%s" % (op[1], fr(op[2]), fr(op[3])))
+        elif op[0] == "domain-of":
+            lst = objs[op[2]].domain()
+            a, b = lst[0], lst[1]
+            s.domain(lst); enc.append("domain:%d:%s:%s" % (op[1], fr(a), fr(b)))
         elif op[0] == "clamp":
             s.clamp(op[2]); enc.append("clamp:%d:%s" % (op[1], fr(op[2])))
         elif op[0] == "nice":
